@@ -81,9 +81,11 @@ class Indentation(afmformats.AFMForceDistance):
             fp = self.fit_properties
             # Reset fit properties
             fp.reset()
-            # Set preprocessing options
-            fp["preprocessing"] = preprocessing
-            fp["preprocessing_options"] = options
+            # Forget the previous preprocessing until the new one has been
+            # applied successfully (a failing `preproc.apply` leaves the
+            # data reset or only partially preprocessed).
+            fp.pop("preprocessing", None)
+            fp.pop("preprocessing_options", None)
             # Reset rating
             self._rating = None
             # Apply preprocessing
@@ -93,6 +95,9 @@ class Indentation(afmformats.AFMForceDistance):
                                     options=options,
                                     ret_details=ret_details)
             self._preprocessing_details = details
+            # Set preprocessing options
+            fp["preprocessing"] = preprocessing
+            fp["preprocessing_options"] = options
             # Check availability of axes
             for ax in ["x_axis", "y_axis"]:
                 # make sure the fitting axes are defined
